@@ -480,6 +480,41 @@ pub fn branch_quat(kind: u64, u1: f64, u2: f64, u3: f64, e: f64) -> [f64; 4] {
         }
         2 => hopf(q4 + off, tau * u2, tau * u3),
         3 => hopf(u2 * 2.0 * q4, q4 + off + (u3 * 4.0).floor() * 2.0 * q4, tau * u3),
-        _ => hopf(u2 * 2.0 * q4, tau * u3, q4 + off + (u3 * 4.0).floor() * 2.0 * q4),
+        4 => hopf(u2 * 2.0 * q4, tau * u3, q4 + off + (u3 * 4.0).floor() * 2.0 * q4),
+        _ => {
+            // one of the 24 rotations of the cube (exact quarter and third turns: images of the axes are axes again, so
+            // rotation-matrix entries are exact zeros), with either sign of the quaternion
+            let h = std::f64::consts::FRAC_1_SQRT_2;
+            let k = ((u2 * 24.0) as usize).min(23);
+            let mut q = match k {
+                0 => [0.0, 0.0, 0.0, 1.0],
+                1 => [1.0, 0.0, 0.0, 0.0],
+                2 => [0.0, 1.0, 0.0, 0.0],
+                3 => [0.0, 0.0, 1.0, 0.0],
+                4..=9 => {
+                    let a = (k - 4) / 2;
+                    let mut q = [0.0, 0.0, 0.0, h];
+                    q[a] = if (k - 4) % 2 == 0 { h } else { -h };
+                    q
+                }
+                10..=15 => {
+                    let (a, b) = [(0, 1), (0, 2), (1, 2)][(k - 10) / 2];
+                    let mut q = [0.0; 4];
+                    q[a] = h;
+                    q[b] = if (k - 10) % 2 == 0 { h } else { -h };
+                    q
+                }
+                _ => {
+                    let m = k - 16;
+                    [if m & 1 == 0 { 0.5 } else { -0.5 }, if m & 2 == 0 { 0.5 } else { -0.5 }, if m & 4 == 0 { 0.5 } else { -0.5 }, 0.5]
+                }
+            };
+            if u3 >= 0.5 {
+                for x in q.iter_mut() {
+                    *x = -*x;
+                }
+            }
+            q
+        }
     }
 }
